@@ -491,9 +491,18 @@ package agent
 //@ assume func (reflect.Value).Len
 //@   nopanic
 //@   ensures result == rlen(this) && result >= 0
+// rkeyof(k, m): k is one of the keys of the reflected Go map m (as handed out by MapKeys). MapIndex with any
+// other value yields the zero Value, which ranks like nil: the collator must look values up with the map's own keys.
+//@ declare rkeyof(U, U) Bool
 //@ assume func (reflect.Value).MapKeys
 //@   nopanic
 //@   ensures fresh(result) && len(result) == rlen(this)
+//@   ensures forall i :: { result[i] } 0 <= i && i < len(result) ==> rkeyof(result[i], this)
+//@ assume func (reflect.Value).MapIndex
+//@   nopanic
+//@   requires[C07] rkeyof($1, this)
+//@ lemma[C07] cnt_pos uses cnt_unfold, cnt_nonneg measure ite(n > 0, n, 0): forall s Seq, n Int, i Int, x U :: { cnt(s, 0, n, x), s[i] } 0 <= i && i < n && s[i] == x ==> cnt(s, 0, n, x) >= 1
+//@ lemma[C07] cnt_none uses cnt_unfold measure ite(n > 0, n, 0): forall s Seq, n Int, x U :: { cnt(s, 0, n, x) } (forall j :: { s[j] } 0 <= j && j < n ==> s[j] != x) ==> cnt(s, 0, n, x) == 0
 //@ assume func (reflect.Value).Elem
 //@   nopanic
 //@   ensures ptrh(result) >= 0 && ptrh(result) < ptrh(this)
@@ -596,8 +605,15 @@ package agent
 //@   modifies this.depth_, cstate(this)
 //@   decreases this.maximum_ - this.depth_, 1, ite(rlen(first) > rlen(second), 1, 0)
 //@   ensures[C08] this.depth_ == old(this.depth_)
+//@   uses cnt_pos, cnt_none
+//@   hint[C07] call5: forall i :: { firstKeys[i] } 0 <= i && i < len(firstKeys) ==> cnt(view(firstKeys), 0, len(firstKeys), firstKeys[i]) >= 1
+//@   hint[C07] call5: forall i :: { firstKeys[i] } 0 <= i && i < len(firstKeys) ==> rkeyof(firstKeys[i], first)
+//@   hint[C07] call7: forall i :: { secondKeys[i] } 0 <= i && i < len(secondKeys) ==> cnt(view(secondKeys), 0, len(secondKeys), secondKeys[i]) >= 1
+//@   hint[C07] call7: forall i :: { secondKeys[i] } 0 <= i && i < len(secondKeys) ==> rkeyof(secondKeys[i], second)
 //@   loop 1:
 //@     invariant 0 <= i && this.depth_ == old(this.depth_) && this.depth_ < this.maximum_
+//@     invariant firstSize == len(firstKeys) && secondSize == len(secondKeys) && firstSize <= secondSize
+//@     invariant (forall j :: { firstKeys[j] } 0 <= j && j < len(firstKeys) ==> rkeyof(firstKeys[j], first)) && (forall j :: { secondKeys[j] } 0 <= j && j < len(secondKeys) ==> rkeyof(secondKeys[j], second))
 //@     decreases firstSize - i
 //@ func (*collator_).rankSequences
 //@   props C08 C07 C19
